@@ -268,12 +268,16 @@ func ruleC12e(c *Ctx, rule string) {
 	c.describe(rule, "reg: offsets are kept per leader — the memstore offset map is keyed by the insert's source at its only write, and (*table).skip forwards (offset, source) unchanged")
 	if pi := c.need(rule, "(*z.rowStore).processInserts"); pi != nil {
 		ok := false
-		for _, in := range instrs(pi) {
-			if mu, isM := in.(*ssa.MapUpdate); isM && isFieldLoad(mu.Map, "z.memstore.offsetsBySource") {
-				ok = isFieldLoad(mu.Key, "z.insert.source") && isFieldLoad(mu.Value, "z.insert.offset")
+		n := 0
+		for _, fn := range c.P.ModFns {
+			for _, in := range instrs(fn) {
+				if mu, isM := in.(*ssa.MapUpdate); isM && isFieldLoad(mu.Map, "z.memstore.offsetsBySource") {
+					n++
+					ok = isFieldLoad(mu.Key, "z.insert.source") && isFieldLoad(mu.Value, "z.insert.offset")
+				}
 			}
 		}
-		c.check(rule, "memstore offsets keyed by the entry's source", pi.Pos(), ok, "offsetsBySource[insert.source] = insert.offset", "the memstore's offset map is not updated as [insert.source] = insert.offset: offsets of different leaders overwrite each other")
+		c.check(rule, "memstore offsets keyed by the entry's source", pi.Pos(), ok && n == 1, "offsetsBySource[insert.source] = insert.offset", "the memstore's offset map is not updated as [insert.source] = insert.offset: offsets of different leaders overwrite each other")
 	}
 	if sk := c.need(rule, "(*z.table).skip"); sk != nil && len(sk.Params) == 3 {
 		ok := false
